@@ -19,6 +19,7 @@ import (
 )
 
 type dumpOpts struct {
+	resolve    bool // also dump what every identifier reference is bound to (scope kind + distance)
 	simplify   bool // compare modulo the documented -s simplifications
 	noComments bool
 	eraseParen bool // drop ParenExpr nodes (programmatic ASTs: parentheses only group)
@@ -33,8 +34,44 @@ var (
 )
 
 type dumper struct {
-	sb   strings.Builder
-	opts dumpOpts
+	sb    strings.Builder
+	opts  dumpOpts
+	stack []ast.Node // ancestors of the node being dumped
+}
+
+// binding describes what the parser resolved an identifier to, without positions: the kind of the
+// declaring node, the kind of its scope and how many struct/file scopes lie between the reference and
+// that scope.  (-s may rewrite labels; it must not re-bind a reference.)
+func (d *dumper) binding(x *ast.Ident) string {
+	if x.Node == nil {
+		return ""
+	}
+	kind := func(n ast.Node) string {
+		t := reflect.TypeOf(n)
+		if t.Kind() == reflect.Ptr {
+			t = t.Elem()
+		}
+		return t.Name()
+	}
+	up := 0
+	found := false
+	for i := len(d.stack) - 1; i >= 0; i-- {
+		if d.stack[i] == x.Scope {
+			found = true
+			break
+		}
+		switch d.stack[i].(type) {
+		case *ast.StructLit, *ast.File:
+			up++
+		}
+	}
+	if x.Scope == nil {
+		return " ->" + kind(x.Node)
+	}
+	if !found {
+		return " ->" + kind(x.Node) + " in " + kind(x.Scope)
+	}
+	return fmt.Sprintf(" ->%s in %s up=%d", kind(x.Node), kind(x.Scope), up)
 }
 
 func dumpNode(n ast.Node, o dumpOpts) string {
@@ -222,9 +259,15 @@ func (d *dumper) node(n ast.Node, depth int) {
 		d.line(depth, "nil")
 		return
 	}
+	d.stack = append(d.stack, n)
+	defer func() { d.stack = d.stack[:len(d.stack)-1] }()
 	switch x := n.(type) {
 	case *ast.Ident:
-		d.line(depth, "Ident %s", x.Name)
+		b := ""
+		if d.opts.resolve {
+			b = d.binding(x)
+		}
+		d.line(depth, "Ident %s%s", x.Name, b)
 		d.comments(x, depth+1)
 		return
 	case *ast.BasicLit:
